@@ -290,6 +290,19 @@ func (x *Exec) appendBuf(st *State, b *Obj, data *Term) {
 
 func (x *Exec) trusted(name string) { x.V.trustedUsed[name] = true }
 
+// takeKnown returns the first n elements of u when n <= len(u) is known: structurally when the
+// segments line up, otherwise as a fresh symbol of known length constrained to equal take(u,n).
+func (x *Exec) takeKnown(st *State, u, n *Term, name string) *Term {
+	t := Take(u, n)
+	if !(t.Op == "app" && t.Name == "take") {
+		return t
+	}
+	d := FreshSeq(name)
+	lenHints[d.Name] = n
+	st.assume(And(Eq(d, t), Eq(App("len", SInt, d), n), App("bytes", SBool, d)))
+	return d
+}
+
 // stdlib implements the trusted contracts of DESIGN.md §5.1 over the ghost content u of a buffer.
 func (x *Exec) stdlib(st *State, full string, args []Value, in ssa.Instruction, cc *ssa.CallCommon) (Value, bool) {
 	switch full {
@@ -374,12 +387,31 @@ func (x *Exec) stdlib(st *State, full string, args []Value, in ssa.Instruction, 
 		x.trusted(full)
 		b := x.bufOf(st, args[0], in, "buf")
 		p := args[1].(VSlice)
-		c := st.mut(b)
-		u := c.Seq
-		n := Ite(Le(sliceLen(p), Len(u)), sliceLen(p), Len(u))
+		u := st.get(b).Seq
+		enough := Le(sliceLen(p), Len(u))
+		switch st.implied(enough) {
+		case 0:
+			s2 := st.clone()
+			s2.assume(Not(enough))
+			x.writeInto(s2, p, u, in)
+			c2 := s2.mut(b)
+			c2.Seq = Empty
+			c2.Epoch++
+			// fewer bytes than asked: n = len(u); io.EOF only when the buffer was empty
+			x.pendingForks = append(x.pendingForks, fork{st: s2, val: VTuple{VInt{Len(u)}, VErr{Lt(IntC(0), Len(u))}}})
+			st.assume(enough)
+		case -1:
+			x.writeInto(st, p, u, in)
+			c := st.mut(b)
+			c.Seq = Empty
+			c.Epoch++
+			return VTuple{VInt{Len(u)}, VErr{Lt(IntC(0), Len(u))}}, true
+		}
+		n := sliceLen(p)
 		// empty buffer: (0, nil) when len(p) == 0, else (0, io.EOF)
-		errNil := Or(Lt(IntC(0), Len(u)), Eq(sliceLen(p), IntC(0)))
-		x.writeInto(st, p, Take(u, n), in)
+		errNil := Or(Lt(IntC(0), Len(u)), Eq(n, IntC(0)))
+		x.writeInto(st, p, x.takeKnown(st, u, n, "read"), in)
+		c := st.mut(b)
 		c.Seq = Drop(u, n)
 		c.Epoch++
 		return VTuple{VInt{n}, VErr{errNil}}, true
@@ -422,15 +454,31 @@ func (x *Exec) stdlib(st *State, full string, args []Value, in ssa.Instruction, 
 		x.trusted(full)
 		b := x.bufOf(st, args[0], in, "reader")
 		p := args[1].(VSlice)
+		u := st.get(b).Seq
+		enough := Le(sliceLen(p), Len(u))
+		switch st.implied(enough) {
+		case 0:
+			s2 := st.clone()
+			s2.assume(Not(enough))
+			x.writeInto(s2, p, u, in)
+			c2 := s2.mut(b)
+			c2.Seq = Empty
+			c2.Epoch++
+			x.pendingForks = append(x.pendingForks, fork{st: s2, val: VTuple{VInt{Len(u)}, VErr{False}}})
+			st.assume(enough)
+		case -1:
+			x.writeInto(st, p, u, in)
+			c := st.mut(b)
+			c.Seq = Empty
+			c.Epoch++
+			return VTuple{VInt{Len(u)}, VErr{False}}, true
+		}
+		n := sliceLen(p)
+		x.writeInto(st, p, x.takeKnown(st, u, n, "readfull"), in)
 		c := st.mut(b)
-		u := c.Seq
-		full := Le(sliceLen(p), Len(u))
-		n := Ite(full, sliceLen(p), Len(u))
-		x.writeInto(st, p, Take(u, n), in)
-		c = st.mut(b)
 		c.Seq = Drop(u, n)
 		c.Epoch++
-		return VTuple{VInt{n}, VErr{full}}, true
+		return VTuple{VInt{n}, VErr{True}}, true
 	case "encoding/binary.Write":
 		x.trusted(full)
 		b := x.bufOf(st, args[0], in, "writer")
@@ -474,7 +522,7 @@ func (x *Exec) stdlib(st *State, full string, args []Value, in ssa.Instruction, 
 			return VErr{False}, true
 		}
 		c := st.mut(b)
-		d := App("dec", SInt, ordTerm(ord), w, Take(u, w))
+		d := App("dec", SInt, ordTerm(ord), w, x.takeKnown(st, u, w, "scalar"))
 		c.Seq = Drop(u, w)
 		c.Epoch++
 		st.mut(ptr.Obj).Val = VInt{fromBits(ti, d)}
@@ -596,6 +644,9 @@ func (x *Exec) loadGlobal(st *State, g *ssa.Global, in ssa.Instruction) Value {
 		return VOrder{LE: false}
 	case "encoding/binary.LittleEndian":
 		return VOrder{LE: true}
+	}
+	if isErrorType(g.Type().(*types.Pointer).Elem()) && !x.V.inRepo(g.Pkg.Pkg.Path()) {
+		return VErr{False} // library sentinel errors (io.EOF, io.ErrUnexpectedEOF ...) are non-nil
 	}
 	x.V.noteGlobal(x.inst, full, "read")
 	if x.V.inRepo(g.Pkg.Pkg.Path()) {
